@@ -4,8 +4,8 @@
 (* never handed to another context" (C20) are invariants of ContainerConc for EVERY set of  *)
 (* goroutines, services, parameters, dependency relation and operation scripts - the        *)
 (* unbounded counterpart of what TLC checks on the instances of MC_ContainerConc (theorems  *)
-(* MutexAlways, ConstructedOnceAlways, EvaluatedOnceAlways, ContextIsolationAlways at the    *)
-(* end of the module).  The first inductive invariant says: a frame that is inside its     *)
+(* MutexAlways, ConstructedOnceAlways, EvaluatedOnceAlways, ContextIsolationAlways and      *)
+(* SharedAgreedAlways at the end of the module).  The first inductive invariant says: a frame that is inside its     *)
 (* critical section (phases check .. unlock of an entry that needs a lock) belongs to the   *)
 (* goroutine the lock table names, and no goroutine has two such frames for one entry.      *)
 EXTENDS ContainerConc, SequenceTheorems, TLAPS
@@ -2026,6 +2026,342 @@ THEOREM CtxInductive == Inv /\ CtxInv /\ [CNext]_cvars => CtxInv'
     BY <1>2, BeginCtx, LockCtx, CheckCtx, DepCtx, ConstructCtx, StoreCtx, UnlockCtx, ReturnCtx
   <1> QED BY <1>1, <1>2 DEF CNext
 
+-----------------------------------------------------------------------------
+(* All operations on a shared service see the one instance: once a frame of s is past its   *)
+(* critical section (unlock, return), and in every result, the instance is what the shared  *)
+(* cache holds, and the cache is filled.                                                    *)
+Past(fr, s) == IsSvcFrame(fr, s) /\ fr.phase \in {"unlock", "return"}
+AgreeFor(s) ==
+  /\ \A g \in G : \A i \in 1..Len(stack[g]) : Past(stack[g][i], s) => (stack[g][i].inst = shared[s] /\ shared[s] # 0)
+  /\ \A r \in returned : (r.kind = "svc" /\ r.id = s) => (r.inst = shared[s] /\ shared[s] # 0)
+RetTyped == \A r \in returned : r.kind = "svc" => r.id \in Svc
+AgreeInv == RetTyped /\ \A s \in Svc : ScopeOf[s] = "shared" => AgreeFor(s)
+
+THEOREM AgreeImplies == AgreeInv => SharedAgreed
+  <1> SUFFICES ASSUME AgreeInv, NEW r1 \in returned, NEW r2 \in returned,
+                      r1.kind = "svc", r2.kind = "svc", r1.id = r2.id, ScopeOf[r1.id] = "shared"
+               PROVE  r1.inst = r2.inst
+    BY DEF SharedAgreed
+  <1>1. r1.id \in Svc /\ AgreeFor(r1.id)
+    BY DEF AgreeInv, RetTyped
+  <1> QED BY <1>1 DEF AgreeFor
+
+LEMMA InitAgree == CInit => AgreeInv
+  <1> SUFFICES ASSUME CInit PROVE AgreeInv
+    OBVIOUS
+  <1>1. returned = {} /\ \A g \in G : Len(stack[g]) = 0
+    BY DEF CInit
+  <1> QED BY <1>1 DEF AgreeInv, AgreeFor, RetTyped
+
+(* a step that leaves shared[s] and the results alone and whose new top frame (if any) is not past its critical section, or is so *)
+(* with the cached instance                                                                                                       *)
+LEMMA AgreeStep ==
+  ASSUME NEW s \in Svc, AgreeFor(s), NEW g \in G, NEW f2, Shape(g, f2), shared'[s] = shared[s], returned' = returned,
+         Len(stack[g]) \in 1..Len(stack'[g]) => (Past(f2, s) => (f2.inst = shared[s] /\ shared[s] # 0))
+  PROVE  AgreeFor(s)'
+  <1>1. \A h \in G : \A i \in 1..Len(stack'[h]) : Past(stack'[h][i], s) => (stack'[h][i].inst = shared[s] /\ shared[s] # 0)
+    <2> SUFFICES ASSUME NEW h \in G, NEW i \in 1..Len(stack'[h]), Past(stack'[h][i], s)
+                 PROVE  stack'[h][i].inst = shared[s] /\ shared[s] # 0
+      OBVIOUS
+    <2>1. CASE i \in 1..Len(stack[h]) /\ ~(h = g /\ i = Len(stack[g])) /\ stack'[h][i] = stack[h][i]
+      BY <2>1 DEF AgreeFor
+    <2>2. CASE h = g /\ i = Len(stack[g]) /\ stack'[h][i] = f2
+      BY <2>2
+    <2>3. CASE h = g /\ i = Len(stack[g]) + 1 /\ stack'[h][i].phase = "lock" /\ stack'[h][i].inst = 0
+      BY <2>3 DEF Past
+    <2> QED BY <2>1, <2>2, <2>3 DEF Shape
+  <1> QED BY <1>1 DEF AgreeFor
+
+(* the shape of each action's stack change, with what the new top frame is (kind, id and instance of the old top kept unless said) *)
+LEMMA ActionShape ==
+  ASSUME Inv, NEW g \in G,
+         Begin(g) \/ Lock(g) \/ Dep(g) \/ Construct(g) \/ Unlock(g)
+  PROVE  \E f2 : /\ Shape(g, f2)
+                 /\ Len(stack[g]) \in 1..Len(stack'[g]) =>
+                       (Busy(g) /\ f2.kind = Top(g).kind /\ f2.id = Top(g).id
+                        /\ (Lock(g) => f2.phase = "check") /\ (Dep(g) => f2.phase \in {"deps", "build"})
+                        /\ (Construct(g) => f2.phase = "store") /\ (Unlock(g) => (f2.phase = "return" /\ f2.inst = Top(g).inst)))
+  <1>1. TypeOK
+    BY DEF Inv
+  <1>2. CASE Begin(g)
+    <2> DEFINE o == CurOp(g)
+               k == IF o.op = "GetParam" THEN "par" ELSE "svc"
+               fr == Frame(k, o.id)
+    <2>1. stack' = Push(g, fr) /\ ~Busy(g)
+      BY <1>2 DEF Begin
+    <2>2. pcs[g] \in 1..Len(Ops[g])
+      BY <1>1, <1>2 DEF Begin, TypeOK
+    <2>3. fr \in FrameT /\ fr.phase = "lock" /\ fr.inst = 0
+      <3>1. o.id \in Keys /\ (k = "svc" => o.id \in Svc) /\ (k = "par" => o.id \in Par)
+        BY <2>2, ConstAssump DEF CurOp
+      <3> QED BY <3>1, FrameTyped DEF Frame
+    <2>4. stack[g] = <<>> /\ Len(stack[g]) = 0
+      BY <2>1 DEF Busy
+    <2>5. /\ \A h \in G : h # g => stack'[h] = stack[h]
+          /\ Len(stack'[g]) = Len(stack[g]) + 1
+          /\ stack'[g][Len(stack[g]) + 1] = fr
+      BY <1>1, <2>1, <2>3, PushProps
+    <2>6. Shape(g, fr) /\ Len(stack[g]) \notin 1..Len(stack'[g])
+      BY <2>4, <2>5, <2>3 DEF Shape
+    <2> QED BY <2>6
+  <1>3. CASE Lock(g)
+    <2> DEFINE f2 == [Top(g) EXCEPT !.phase = "check"]
+    <2>1. Busy(g) /\ Top(g) \in FrameT
+      BY <1>1, <1>3, BusyLen DEF Lock
+    <2>2. f2 \in FrameT /\ stack' = SetTop(g, f2) /\ f2.kind = Top(g).kind /\ f2.id = Top(g).id /\ f2.phase = "check"
+      BY <1>3, <2>1 DEF Lock, FrameT, Phases
+    <2>3. Shape(g, f2)
+      BY <1>1, <2>1, <2>2, SetTopShape
+    <2>4. ~Begin(g) /\ ~Dep(g) /\ ~Construct(g) /\ ~Unlock(g)
+      BY <1>3 DEF Lock, Begin, Dep, Construct, Unlock
+    <2> QED BY <2>1, <2>2, <2>3, <2>4
+  <1>4. CASE Construct(g)
+    <2> DEFINE f == Top(g)
+               f2 == IF f.kind = "par" THEN [f EXCEPT !.phase = "store", !.inst = 1] ELSE [f EXCEPT !.phase = "store", !.inst = nextInst]
+    <2>1. Busy(g) /\ f \in FrameT /\ nextInst \in Nat \ {0}
+      BY <1>1, <1>4, BusyLen DEF Construct, TypeOK
+    <2>2. f2 \in FrameT /\ stack' = SetTop(g, f2) /\ f2.kind = f.kind /\ f2.id = f.id /\ f2.phase = "store"
+      BY <1>4, <2>1 DEF Construct, FrameT, Phases
+    <2>3. Shape(g, f2)
+      BY <1>1, <2>1, <2>2, SetTopShape
+    <2>4. ~Begin(g) /\ ~Dep(g) /\ ~Lock(g) /\ ~Unlock(g)
+      BY <1>4 DEF Lock, Begin, Dep, Construct, Unlock
+    <2> QED BY <2>1, <2>2, <2>3, <2>4
+  <1>5. CASE Unlock(g)
+    <2> DEFINE f == Top(g)
+               n == Len(stack[g])
+               f2 == [f EXCEPT !.phase = "return"]
+    <2>1. Busy(g) /\ f \in FrameT /\ n \in Nat \ {0}
+      BY <1>1, <1>5, BusyLen DEF Unlock
+    <2>2. f2 \in FrameT /\ f2.kind = f.kind /\ f2.id = f.id /\ f2.phase = "return" /\ f2.inst = f.inst
+      BY <2>1 DEF FrameT, Phases
+    <2>3. Shape(g, f2)
+      <3>1. CASE n = 1
+        <4>1. stack' = SetTop(g, f2)
+          BY <1>5, <3>1 DEF Unlock
+        <4> QED BY <1>1, <2>1, <2>2, <4>1, SetTopShape
+      <3>2. CASE n # 1
+        <4>1. stack' = Pop(g)
+          BY <1>5, <3>2 DEF Unlock
+        <4> QED BY <1>1, <2>1, <4>1, PopShape
+      <3> QED BY <3>1, <3>2
+    <2>4. ~Begin(g) /\ ~Dep(g) /\ ~Lock(g) /\ ~Construct(g)
+      BY <1>5 DEF Lock, Begin, Dep, Construct, Unlock
+    <2> QED BY <2>1, <2>2, <2>3, <2>4
+  <1>6. CASE Dep(g)
+    <2> DEFINE f == Top(g)
+               n == Len(stack[g])
+               ds == DepsOf[f.id]
+    <2>1. Busy(g) /\ f \in FrameT /\ n \in Nat \ {0} /\ f = stack[g][n] /\ f.phase = "deps"
+      BY <1>1, <1>6, BusyLen DEF Dep
+    <2>2. ~Begin(g) /\ ~Construct(g) /\ ~Lock(g) /\ ~Unlock(g)
+      BY <1>6 DEF Lock, Begin, Dep, Construct, Unlock
+    <2>3. \E f2 \in FrameT : Shape(g, f2) /\ f2.kind = f.kind /\ f2.id = f.id /\ f2.phase \in {"deps", "build"}
+      <3>1. CASE f.dep > Len(ds)
+        <4> DEFINE f2 == [f EXCEPT !.phase = "build"]
+        <4>1. f2 \in FrameT /\ f2.kind = f.kind /\ f2.id = f.id /\ f2.phase \in {"deps", "build"}
+          BY <2>1 DEF FrameT, Phases
+        <4>2. stack' = SetTop(g, f2)
+          BY <1>6, <3>1 DEF Dep
+        <4> QED BY <1>1, <2>1, <4>1, <4>2, SetTopShape
+      <3>2. CASE ~(f.dep > Len(ds))
+        <4> DEFINE f2 == [f EXCEPT !.dep = f.dep + 1]
+                   d == ds[f.dep]
+                   fr == Frame(d[1], d[2])
+                   mid == [stack[g] EXCEPT ![n] = f2]
+        <4>1. f.id \in Keys /\ f.dep \in Nat \ {0} /\ ds \in Seq({"svc", "par"} \X Keys)
+          BY <2>1, ConstAssump DEF FrameT
+        <4>2. f.dep \in 1..Len(ds)
+          BY <3>2, <4>1, LenProperties
+        <4>3. d \in {"svc", "par"} \X Keys /\ (d[1] = "svc" => d[2] \in Svc) /\ (d[1] = "par" => d[2] \in Par)
+          BY <4>1, <4>2, ConstAssump, ElementOfSeq
+        <4>4. fr \in FrameT /\ fr.phase = "lock" /\ fr.inst = 0
+          BY <4>3, FrameTyped DEF Frame
+        <4>5. f2 \in FrameT /\ f2.kind = f.kind /\ f2.id = f.id /\ f2.phase \in {"deps", "build"}
+          BY <2>1 DEF FrameT
+        <4>6. stack' = [stack EXCEPT ![g] = Append(mid, fr)]
+          BY <1>6, <3>2 DEF Dep
+        <4>7. stack[g] \in Seq(FrameT) /\ stack \in [G -> Seq(FrameT)]
+          BY <1>1 DEF TypeOK
+        <4>8. mid \in Seq(FrameT) /\ Len(mid) = n /\ \A i \in 1..n : mid[i] = IF i = n THEN f2 ELSE stack[g][i]
+          BY <4>7, <4>5, <2>1, ExceptSeq
+        <4>9. /\ Append(mid, fr) \in Seq(FrameT) /\ Len(Append(mid, fr)) = n + 1
+              /\ \A i \in 1..n : Append(mid, fr)[i] = mid[i]
+              /\ Append(mid, fr)[n + 1] = fr
+          BY <4>8, <4>4, AppendProperties
+        <4>10. /\ \A h \in G : h # g => stack'[h] = stack[h]
+               /\ Len(stack'[g]) = n + 1
+               /\ \A i \in 1..n : i # n => stack'[g][i] = stack[g][i]
+               /\ stack'[g][n] = f2 /\ stack'[g][n + 1] = fr
+          BY <4>6, <4>7, <4>8, <4>9, <2>1
+        <4>11. Shape(g, f2)
+          BY <4>10, <4>4, <2>1 DEF Shape
+        <4> QED BY <4>5, <4>11
+      <3> QED BY <3>1, <3>2
+    <2> QED BY <2>1, <2>2, <2>3
+  <1> QED BY <1>2, <1>3, <1>4, <1>5, <1>6
+
+(* Begin, Lock, Dep, Construct, Unlock: the caches and results stay, the new top frame is not past its critical section, or was so before *)
+LEMMA PlainAgree ==
+  ASSUME Inv, AgreeInv, NEW g \in G, Begin(g) \/ Lock(g) \/ Dep(g) \/ Construct(g) \/ Unlock(g)
+  PROVE  AgreeInv'
+  <1>1. shared' = shared /\ returned' = returned
+    BY DEF Begin, Lock, Dep, Construct, Unlock
+  <1>2. PICK f2 : /\ Shape(g, f2)
+                  /\ Len(stack[g]) \in 1..Len(stack'[g]) =>
+                       (Busy(g) /\ f2.kind = Top(g).kind /\ f2.id = Top(g).id
+                        /\ (Lock(g) => f2.phase = "check") /\ (Dep(g) => f2.phase \in {"deps", "build"})
+                        /\ (Construct(g) => f2.phase = "store") /\ (Unlock(g) => (f2.phase = "return" /\ f2.inst = Top(g).inst)))
+    BY ActionShape
+  <1>3. RetTyped'
+    BY <1>1 DEF AgreeInv, RetTyped
+  <1> SUFFICES ASSUME NEW s \in Svc, ScopeOf[s] = "shared" PROVE AgreeFor(s)'
+    BY <1>3 DEF AgreeInv
+  <1>4. AgreeFor(s)
+    BY DEF AgreeInv
+  <1>5. Len(stack[g]) \in 1..Len(stack'[g]) => (Past(f2, s) => (f2.inst = shared[s] /\ shared[s] # 0))
+    <2> SUFFICES ASSUME Len(stack[g]) \in 1..Len(stack'[g]), Past(f2, s) PROVE f2.inst = shared[s] /\ shared[s] # 0
+      OBVIOUS
+    <2>1. Busy(g) /\ f2.kind = Top(g).kind /\ f2.id = Top(g).id /\ f2.phase \in {"unlock", "return"}
+      BY <1>2 DEF Past
+    <2>2. Unlock(g) /\ f2.inst = Top(g).inst /\ Top(g).phase = "unlock"
+      BY <2>1, <1>2 DEF Unlock, Begin
+    <2>3. Len(stack[g]) \in 1..Len(stack[g]) /\ Top(g) = stack[g][Len(stack[g])]
+      BY <2>1, BusyLen DEF Inv
+    <2>4. Past(Top(g), s)
+      BY <2>1, <2>2 DEF Past, IsSvcFrame
+    <2> QED BY <2>2, <2>3, <2>4, <1>4 DEF AgreeFor
+  <1> QED BY <1>1, <1>2, <1>4, <1>5, AgreeStep
+
+LEMMA CheckAgree == ASSUME Inv, AgreeInv, NEW g \in G, Check(g) PROVE AgreeInv'
+  <1>1. TypeOK /\ Busy(g)
+    BY DEF Inv, Check
+  <1> DEFINE f == Top(g)
+             f2 == IF Cached(g) # 0 THEN [f EXCEPT !.phase = "unlock", !.inst = Cached(g)] ELSE [f EXCEPT !.phase = "deps"]
+  <1>2. f \in FrameT /\ Cached(g) \in Nat
+    BY <1>1, BusyLen, CachedNat
+  <1>3. f2 \in FrameT /\ stack' = SetTop(g, f2) /\ f2.kind = f.kind /\ f2.id = f.id /\ shared' = shared /\ returned' = returned
+    BY <1>2 DEF Check, FrameT, Phases
+  <1>4. Shape(g, f2)
+    BY <1>1, <1>3, SetTopShape
+  <1>5. RetTyped'
+    BY <1>3 DEF AgreeInv, RetTyped
+  <1> SUFFICES ASSUME NEW s \in Svc, ScopeOf[s] = "shared" PROVE AgreeFor(s)'
+    BY <1>5 DEF AgreeInv
+  <1>6. AgreeFor(s)
+    BY DEF AgreeInv
+  <1>7. Past(f2, s) => (f2.inst = shared[s] /\ shared[s] # 0)
+    <2> SUFFICES ASSUME Past(f2, s) PROVE f2.inst = shared[s] /\ shared[s] # 0
+      OBVIOUS
+    <2>1. f.kind = "svc" /\ f.id = s /\ f2.phase \in {"unlock", "return"}
+      BY <1>3 DEF Past, IsSvcFrame
+    <2>2. Cached(g) # 0 /\ f2.inst = Cached(g)
+      BY <2>1, <1>2 DEF FrameT
+    <2>3. Cached(g) = shared[s]
+      BY <2>1 DEF Cached
+    <2> QED BY <2>2, <2>3
+  <1> QED BY <1>3, <1>4, <1>6, <1>7, AgreeStep
+
+LEMMA StoreAgree == ASSUME Inv, OnceInv, AgreeInv, NEW g \in G, Store(g) PROVE AgreeInv'
+  <1>1. TypeOK /\ Busy(g) /\ Top(g).phase = "store"
+    BY DEF Inv, Store
+  <1> DEFINE f == Top(g)
+             n == Len(stack[g])
+             f2 == [f EXCEPT !.phase = "unlock"]
+  <1>2. f \in FrameT /\ n \in Nat \ {0} /\ f = stack[g][n] /\ shared \in [Svc -> Nat]
+    BY <1>1, BusyLen DEF TypeOK
+  <1>3. f2 \in FrameT /\ stack' = SetTop(g, f2) /\ f2.kind = f.kind /\ f2.id = f.id /\ f2.inst = f.inst /\ f2.phase = "unlock"
+        /\ returned' = returned
+    BY <1>2 DEF Store, FrameT, Phases
+  <1>4. Shape(g, f2)
+    BY <1>1, <1>3, SetTopShape
+  <1>5. RetTyped'
+    BY <1>3 DEF AgreeInv, RetTyped
+  <1> SUFFICES ASSUME NEW s \in Svc, ScopeOf[s] = "shared" PROVE AgreeFor(s)'
+    BY <1>5 DEF AgreeInv
+  <1>6. AgreeFor(s) /\ OnceFor(s)
+    BY DEF AgreeInv, OnceInv
+  <1>7. CASE ~IsSvcFrame(f, s)
+    <2>1. shared'[s] = shared[s]
+      <3>1. CASE f.kind = "par"
+        BY <3>1 DEF Store
+      <3>2. CASE f.kind # "par" /\ ScopeOf[f.id] = "shared"
+        <4>1. f.id \in Svc /\ f.id # s /\ shared' = [shared EXCEPT ![f.id] = f.inst]
+          BY <3>2, <1>2, <1>7 DEF Store, FrameT, IsSvcFrame
+        <4> QED BY <4>1, <1>2
+      <3>3. CASE f.kind # "par" /\ ScopeOf[f.id] # "shared"
+        BY <3>3 DEF Store
+      <3> QED BY <3>1, <3>2, <3>3
+    <2>2. ~Past(f2, s)
+      BY <1>7, <1>3 DEF Past, IsSvcFrame
+    <2> QED BY <1>3, <1>4, <1>6, <2>1, <2>2, AgreeStep
+  <1>8. CASE IsSvcFrame(f, s)
+    <2>1. Cls(f, s) = "store" /\ shared[s] = 0 /\ f.inst # 0
+      BY <1>8, <1>1, <1>2, <1>6 DEF Cls, OnceFor
+    <2>2. shared'[s] = f.inst
+      <3>1. f.kind # "par" /\ f.id = s /\ ScopeOf[f.id] = "shared"
+        BY <1>8 DEF IsSvcFrame
+      <3>2. shared' = [shared EXCEPT ![f.id] = f.inst]
+        BY <3>1 DEF Store
+      <3> QED BY <3>1, <3>2, <1>2
+    (* nothing of s was past its critical section and no result of s exists: the cache was empty *)
+    <2>3. \A h \in G : \A i \in 1..Len(stack[h]) : ~Past(stack[h][i], s)
+      BY <2>1, <1>6 DEF AgreeFor
+    <2>4. \A r \in returned : ~(r.kind = "svc" /\ r.id = s)
+      BY <2>1, <1>6 DEF AgreeFor
+    <2>5. \A h \in G : \A i \in 1..Len(stack'[h]) : Past(stack'[h][i], s) => (stack'[h][i].inst = shared'[s] /\ shared'[s] # 0)
+      <3> SUFFICES ASSUME NEW h \in G, NEW i \in 1..Len(stack'[h]), Past(stack'[h][i], s)
+                   PROVE  stack'[h][i].inst = shared'[s] /\ shared'[s] # 0
+        OBVIOUS
+      <3>1. CASE i \in 1..Len(stack[h]) /\ ~(h = g /\ i = n) /\ stack'[h][i] = stack[h][i]
+        BY <3>1, <2>3
+      <3>2. CASE h = g /\ i = n /\ stack'[h][i] = f2
+        BY <3>2, <2>1, <2>2, <1>3
+      <3>3. CASE h = g /\ i = n + 1 /\ stack'[h][i].phase = "lock" /\ stack'[h][i].inst = 0
+        BY <3>3 DEF Past
+      <3> QED BY <3>1, <3>2, <3>3, <1>4 DEF Shape
+    <2> QED BY <2>4, <2>5, <1>3 DEF AgreeFor
+  <1> QED BY <1>7, <1>8
+
+LEMMA ReturnAgree == ASSUME Inv, AgreeInv, NEW g \in G, Return(g) PROVE AgreeInv'
+  <1>1. TypeOK /\ Busy(g) /\ Len(stack[g]) = 1 /\ Top(g).phase = "return"
+    BY DEF Inv, Return
+  <1> DEFINE f == Top(g)
+             rec == [g |-> g, i |-> pcs[g], kind |-> f.kind, id |-> f.id, inst |-> f.inst, bag |-> BagKey(g)]
+  <1>2. f \in FrameT /\ f = stack[g][1]
+    BY <1>1, BusyLen
+  <1>3. returned' = returned \cup {rec} /\ stack' = Pop(g) /\ shared' = shared
+    BY DEF Return
+  <1>4. /\ \A h \in G : h # g => stack'[h] = stack[h]
+        /\ Len(stack'[g]) = 0
+    BY <1>1, <1>3, PopProps
+  <1>5. RetTyped'
+    <2>1. rec.kind = "svc" => rec.id \in Svc
+      BY <1>2 DEF FrameT
+    <2> QED BY <2>1, <1>3 DEF AgreeInv, RetTyped
+  <1> SUFFICES ASSUME NEW s \in Svc, ScopeOf[s] = "shared" PROVE AgreeFor(s)'
+    BY <1>5 DEF AgreeInv
+  <1>6. AgreeFor(s)
+    BY DEF AgreeInv
+  <1>7. \A h \in G : \A i \in 1..Len(stack'[h]) : h # g /\ i \in 1..Len(stack[h]) /\ stack'[h][i] = stack[h][i]
+    BY <1>4
+  <1>8. (rec.kind = "svc" /\ rec.id = s) => (rec.inst = shared[s] /\ shared[s] # 0)
+    <2> SUFFICES ASSUME rec.kind = "svc", rec.id = s PROVE rec.inst = shared[s] /\ shared[s] # 0
+      OBVIOUS
+    <2>1. Past(f, s) /\ 1 \in 1..Len(stack[g])
+      BY <1>1 DEF Past, IsSvcFrame
+    <2> QED BY <2>1, <1>2, <1>6 DEF AgreeFor
+  <1> QED BY <1>3, <1>6, <1>7, <1>8 DEF AgreeFor
+
+THEOREM AgreeInductive == Inv /\ OnceInv /\ AgreeInv /\ [CNext]_cvars => AgreeInv'
+  <1> SUFFICES ASSUME Inv, OnceInv, AgreeInv, [CNext]_cvars PROVE AgreeInv'
+    OBVIOUS
+  <1>1. CASE UNCHANGED cvars
+    BY <1>1 DEF AgreeInv, AgreeFor, RetTyped, Past, IsSvcFrame, cvars
+  <1>2. ASSUME NEW g \in G, Begin(g) \/ Lock(g) \/ Check(g) \/ Dep(g) \/ Construct(g) \/ Store(g) \/ Unlock(g) \/ Return(g) PROVE AgreeInv'
+    BY <1>2, PlainAgree, CheckAgree, StoreAgree, ReturnAgree
+  <1> QED BY <1>1, <1>2 DEF CNext
+
 THEOREM ConstructedOnceAlways == (CInit /\ [][CNext]_cvars) => []ConstructedOnce
   <1>1. CInit => Inv /\ OnceInv
     BY InitInv, InitOnce
@@ -2049,5 +2385,13 @@ THEOREM ContextIsolationAlways == (CInit /\ [][CNext]_cvars) => []ContextIsolati
     BY InvInductive, CtxInductive
   <1>3. (Inv /\ CtxInv) => ContextIsolation
     BY CtxImplies
+  <1> QED BY <1>1, <1>2, <1>3, PTL
+THEOREM SharedAgreedAlways == (CInit /\ [][CNext]_cvars) => []SharedAgreed
+  <1>1. CInit => Inv /\ OnceInv /\ AgreeInv
+    BY InitInv, InitOnce, InitAgree
+  <1>2. (Inv /\ OnceInv /\ AgreeInv) /\ [CNext]_cvars => (Inv /\ OnceInv /\ AgreeInv)'
+    BY InvInductive, OnceInductive, AgreeInductive
+  <1>3. (Inv /\ OnceInv /\ AgreeInv) => SharedAgreed
+    BY AgreeImplies
   <1> QED BY <1>1, <1>2, <1>3, PTL
 =============================================================================
